@@ -25,7 +25,7 @@ pub(crate) fn is_tuple_fields(fs: &[Field]) -> bool {
     true
 }
 
-static KEYWORDS: [&str; 65] = [
+static KEYWORDS: [&str; 74] = [
     "abstract",
     "arguments",
     "await",
@@ -92,6 +92,17 @@ static KEYWORDS: [&str; 65] = [
     "yield",
     // not a reserved word, but the parameter name of the generated idlFactory
     "IDL",
+    // predefined TypeScript type names: a user type with one of these names would shadow
+    // the built-in type the generated declarations rely on (`export type string = string;`)
+    "any",
+    "bigint",
+    "never",
+    "number",
+    "object",
+    "string",
+    "symbol",
+    "undefined",
+    "unknown",
 ];
 pub(crate) fn ident(id: &str) -> RcDoc<'_> {
     if KEYWORDS.contains(&id) {
